@@ -49,6 +49,8 @@ def generate(run_seed, tier):
             # wider operator coverage (where/mask, loc, nlargest, accessors, melt, combine_first, ...)
             fams += rw.sample(list(W.EXTENDED_FAMILIES), rw.randint(2, len(W.EXTENDED_FAMILIES)))
         fuse = rw.random() < 0.6
+        if rw.random() < 0.5:
+            fams += ["rename_series"] * 2
         refw = reference_world()
 
         def ref_compute(coll):
